@@ -16,6 +16,7 @@
        "requeue"  the shard's length after a requeue is not what was put back          (C09)
        "tick"     the coordinator saw "nothing pending" for a worker that owns a shard which has been
                   non-empty since before its previous tick                              (C19)
+       "pinret"   a retirement is decided (marker write) while a reader's pin on that generation is open   (C08)
        "lag"      six coordinator periods after the last call something is still queued, in a hand, or
                   waiting for retirement with no reader pinned; or the coordinator did not tick (C19)
 
@@ -89,7 +90,10 @@ TWDone == /\ Ev.e = "wdone" /\ wk' = [wk EXCEPT ![Ev.w].pc = "recv"] /\ hand' = 
           /\ lost' = lost \cup SeqSet(hand[Ev.w])
           /\ flags' = {} /\ UNCHANGED <<nxt, kind, sh, q, done, retq, retired, ff, age>>
 
-TRet == /\ Ev.e = "ret" /\ retq' = retq \ {Ev.id} /\ retired' = retired \cup {Ev.id} /\ flags' = {}
+\* Coord's RP: a retirement pass leaves what a reader pins in the queue - a marker write decided (`pinned` = 1: a reader's
+\* pin interval on that very generation contains the decision) is the violation
+TRet == /\ Ev.e = "ret" /\ retq' = retq \ {Ev.id} /\ retired' = retired \cup {Ev.id}
+        /\ flags' = IF Ev.pinned = 1 THEN {"pinret"} ELSE {}
         /\ UNCHANGED <<nxt, kind, sh, q, hand, done, wk, ff, age>>
 
 TTick ==
@@ -135,6 +139,7 @@ DrainAll    == "drain" \notin flags
 RequeueKept == "requeue" \notin flags
 TickHonest  == "tick" \notin flags
 NoLag       == "lag" \notin flags
+RetireRespectsPins == "pinret" \notin flags
 
 TraceAccepted ==
   IF TLCGet("stats").diameter = Len(Rec) THEN TRUE
